@@ -885,8 +885,12 @@ protected:
 			setzero();
 		}
 		else {
-			x[0] = static_cast<double>(v);
-			x[1] = static_cast<double>(v - static_cast<uint64_t>(x[0]));  // difference is always positive
+			// x[0] = double(v) may round UP, so v - uint64_t(x[0]) is not always positive (and uint64_t(2^64) is out of range):
+			// convert the two halves of v, which are exact, and normalize
+			uint64_t low = v & 0xFFFFFFFF;
+			double h = static_cast<double>(v - low), l = static_cast<double>(low);
+			x[0] = h + l;
+			x[1] = l - (x[0] - h);
 			x[2] = 0.0;
 			x[3] = 0.0;
 		}
